@@ -567,6 +567,13 @@ class ModelsOps:
         I.raise_("TypeError", node)
 
     def parse_number(self, s: StrV, node, how):
+        if s.const is not None:
+            try:
+                return Num(RF.const(Fraction(s.const)), "dec" if how == "Decimal" else "frac")
+            except (ValueError, ZeroDivisionError):
+                ex = ExcV("ValueError", (), node, self.where(node))
+                ex.tag = "parse"
+                raise AbsRaise(ex)
         key = ("parsed", id(s))
         c = self.I.choose(2, f"{how}(str)@{getattr(node, 'lineno', '?')}", ["ok", "ValueError"])
         if c == 1:
